@@ -406,12 +406,16 @@ static int history_get_count(LHAPM2Decoder *decoder, unsigned int code)
 
 	if (code < 15) {
 		return (int) code + 2;
-	} else {
+	} else if (code - 15 < sizeof(copy_decode) / sizeof(*copy_decode)) {
 #ifdef LHASA_VERIF
 		LHASA_VERIF_INDEX(copy_decode, code - 15);
 #endif
 		return decode_variable_length(&decoder->bit_stream_reader,
 		                              copy_decode, code - 15);
+	} else {
+		// The code tree can encode more values than there are
+		// entries in the table; such codes are invalid.
+		return -1;
 	}
 }
 
